@@ -196,6 +196,15 @@ func genFramePlan(seed uint64, thorough bool) *Plan {
 		}
 		p.Clients = append(p.Clients, Client{Items: items, Depth: 1 + g.r.IntN(8)})
 	}
+	if g.chance(3) {
+		// one more connection speaks RESP3 and asks for the long text replies
+		// (verbatim strings: a length header in front of a typed payload)
+		items := []Item{cmdItem("HELLO", "3")}
+		for i := 0; i < 3+g.r.IntN(8); i++ {
+			items = append(items, Item{Args: bs(g.pick2([][]string{{"INFO"}, {"INFO", "server"}, {"CLIENT", "LIST"}, {"CLIENT", "INFO"}, {"PING"}, {"ECHO", g.nasty()}, {"INFO", "clients"}, {"CLIENT", "SETNAME", g.pick("r3", "r4")}})...)})
+		}
+		p.Clients = append(p.Clients, Client{Items: items, Depth: 1 + g.r.IntN(8)})
+	}
 	return p
 }
 
@@ -271,7 +280,7 @@ func (c *frameChecker) OnReply(w *World, op *Op) *Violation {
 // replyDependsOnChance: replies that legitimately differ between two runs.
 func replyDependsOnChance(argv []string) bool {
 	switch strings.ToLower(argv[0]) {
-	case "hrandfield", "srandmember", "randomkey", "ttl", "pttl", "expiretime", "pexpiretime", "client", "info":
+	case "hrandfield", "srandmember", "randomkey", "ttl", "pttl", "expiretime", "pexpiretime", "client", "info", "hello":
 		return true
 	}
 	return false
